@@ -465,3 +465,80 @@ Definition handler_ok (c : handler_case) : bool :=
   N.eqb (match aget ukey_eqb 1%N (profiles (primary s1)) with Some b => b | None => 0%N end) res &&
   Bool.eqb (negb (same_db (cache s1) (cache s0))) cache_changed &&
   Bool.eqb (match o with OServed => true | _ => false end) served.
+
+(* the second-factor checks and readers after a restart during an outage: the profile is 11 in the
+   primary and 10 in the cache, the daemon is restarted, then the request (which would store 12) *)
+Definition restart_handler_case := (hkind * mode * N * bool * bool)%type.
+
+Definition restart_handler_ok (c : restart_handler_case) : bool :=
+  let '(h, m, res, cache_changed, served) := c in
+  let s0 := mk_state (mk_db [(1%N, 11%N)] []) (mk_db [(1%N, 10%N)] []) 0 m in
+  let '(s1, _) := step s0 Restart in
+  let '(s2, o) := step s1 (Handler h 1%N 12%N) in
+  N.eqb (match aget ukey_eqb 1%N (profiles (primary s2)) with Some b => b | None => 0%N end) res &&
+  Bool.eqb (negb (same_db (cache s2) (cache s0))) cache_changed &&
+  Bool.eqb (match o with OServed => true | _ => false end) served.
+
+(* ------------------------------------------------------------------ the property's predicate on an observation
+   A history on which implementation and model disagree is a concrete input; whether it also VIOLATES
+   the property is decided here: at the first step where the observation leaves the model (up to there
+   the model state is the implementation's), the conclusion of the property's theorem for that step is
+   evaluated on what was observed.
+     1 sync-reported-complete-not-mirror   c15_sync_mirror / c15_atomic (success => the new content)
+     2 sync-mixture                        c15_atomic (neither the old nor the new content)
+     3 sync-reported-failed-new-content    c15_atomic (failure => the old content)
+     4 sync-does-not-complete              c15_sync_completes (no fault, primary readable)
+     5 sync-changed-primary                c15_atomic
+     6 restart-changed-store               c15_restart_keeps_stores
+     7 outage-read                         c15_outage_reads (not answered from the cache / not its content)
+   0 = the observation differs from the model but satisfies the property (stricter, or unobserved) *)
+Definition snap_at (snaps : list (nat * db * db)) (i : nat) : option (db * db) :=
+  match find (fun e => Nat.eqb (fst (fst e)) i) snaps with
+  | Some (_, p, c) => Some (p, c)
+  | None => None
+  end.
+
+Definition classify (s : state) (o : op) (x : out) (sn : option (db * db)) : nat :=
+  match o, sn with
+  | Sync f, Some (p, c) =>
+      let cnew := fst (sync (primary s) (now s) None (cache s)) in
+      if negb (same_db p (primary s)) then 5%nat
+      else match x with
+           | OSync true => if writable s && same_db c cnew then 0%nat else 1%nat
+           | OSync false =>
+               if same_db c (cache s)
+               then match f with None => if writable s then 4%nat else 0%nat | Some _ => 0%nat end
+               else if writable s && same_db c cnew then 3%nat else 2%nat
+           | _ => 0%nat
+           end
+  | Restart, Some (p, c) => if same_db p (primary s) && same_db c (cache s) then 0%nat else 6%nat
+  | Load _, _ | GetS _ _, _ | Users, _ =>
+      if mode_eqb (pmode s) Up then 0%nat
+      else if out_eqb (snd (step s o)) x then 0%nat else 7%nat
+  | _, _ => 0%nat
+  end.
+
+Fixpoint first_violation (s : state) (i : nat) (ops : list op) (outs : list out) (snaps : list (nat * db * db)) : nat :=
+  match ops, outs with
+  | o :: ro, x :: rx =>
+      let '(s1, xm) := step s o in
+      let sn := snap_at snaps i in
+      if out_eqb xm x && match sn with Some (p, c) => same_db (primary s1) p && same_db (cache s1) c | None => true end
+      then first_violation s1 (S i) ro rx snaps
+      else classify s o x sn
+  | _, _ => 0%nat
+  end.
+
+Definition history_violation (c : history_case) : nat :=
+  let '(ops, outs, snaps) := c in first_violation init 0 ops outs snaps.
+
+Fixpoint violating_from (l : list history_case) (i : nat) : list (nat * nat) :=
+  match l with
+  | [] => []
+  | c :: r => if history_ok c then violating_from r (S i)
+              else match history_violation c with
+                   | O => violating_from r (S i)
+                   | v => (i, v) :: violating_from r (S i)
+                   end
+  end.
+Definition violating_cases (l : list history_case) : list (nat * nat) := violating_from l 0.
